@@ -1126,6 +1126,56 @@ Section Correct.
         exists v', sem ms p' v' /\ cval_of (pv_ty p') v' = conv (sg, w) (cval_of (pv_ty p) v).
   Proof. intros Hw Hp. exact (init_a_cast_gen (ty_int sg w) sg w p st Hw (ity_int sg w) Hp). Qed.
 
+  (* ------------------------------------------------------------------ argument passing: cast_sub_routine_args / build_arg_list *)
+  (* every argument of a call is converted to the type of its parameter (C11 6.5.2.2p7: as if by assignment), whatever the
+     argument expression, for every list of arguments and integer parameter types *)
+  Lemma vtype_eqb_sym a b : vtype_eqb a b = vtype_eqb b a.
+  Proof. unfold vtype_eqb. destruct (vt_tok a), (vt_tok b), (vt_sg a), (vt_sg b); cbn; rewrite ?(N.eqb_sym (vt_w a)); reflexivity. Qed.
+
+  Definition int_ptype (pt : vtype) : Prop := exists sg w, okw w /\ pt = ty_int sg w.
+
+  Lemma arg_conv_eq pt p st : int_ptype pt -> goodpv p ->
+    (do eq <- ty_eq (pv_ty p) pt; do p' <- (if eq then ret p else init_a_cast cfg pt p); ret p') st = init_a_cast cfg pt p st.
+  Proof.
+    intros [sg [w [Hw ->]]] Hg.
+    assert (Hn : is_numeric (pv_ty p) = true /\ vt_float (pv_ty p) = false).
+    { destruct Hg as [[Ht _] | [s0 [w0 [_ [Ht _]]]]]; rewrite Ht; split; reflexivity. }
+    destruct Hn as [Hn Hf].
+    unfold init_a_cast, bind, ty_eq. rewrite Hn, Hf. cbn [is_numeric ty_int ty_h vt_void vt_ext vt_float negb andb orb]. unfold ret.
+    rewrite (vtype_eqb_sym (ty_int sg w)). destruct (vtype_eqb (pv_ty p) (ty_int sg w)); [reflexivity|].
+    match goal with |- match ?X with _ => _ end = _ => destruct X as [[q s1]|]; reflexivity end.
+  Qed.
+
+  Theorem lower_args_ok : forall (ps : list pval) (pts : list vtype) st,
+    Forall goodpv ps -> Forall int_ptype pts -> List.length ps = List.length pts ->
+    exists args, lower_args cfg (map IPure ps) pts st = OK ((args, []), st) /\
+      forall ms, forall k p pt v, nth_error ps k = Some p -> nth_error pts k = Some pt -> sem ms p v ->
+        exists t v', nth_error args k = Some (APure t) /\ eval rw ms [] (fin t) = Some v' /\ shape pt v' /\
+                     cval_of pt v' = conv (vt_sg pt, vt_w pt) (cval_of (pv_ty p) v).
+  Proof.
+    induction ps as [|p ps IH]; intros pts st Hg Hp Hl.
+    - destruct pts; [|discriminate Hl]. exists []. split; [reflexivity|]. intros ms k p pt v Hk. destruct k; discriminate Hk.
+    - destruct pts as [|pt pts]; [discriminate Hl|]. injection Hl as Hl.
+      inversion Hg as [|? ? Hgp Hgps]; subst. inversion Hp as [|? ? Hpt Hpts]; subst.
+      destruct (IH pts st Hgps Hpts Hl) as [rest [Lr Sr]].
+      pose proof Hpt as [sg [w [Hw Ept]]].
+      destruct (init_a_cast_ok sg w p st Hw Hgp) as [p' [C1 [C2 [C3 [_ C5]]]]].
+      exists (APure (rd p') :: rest). split.
+      + cbn [map lower_args]. unfold bind at 1. rewrite Lr. cbv beta iota.
+        assert (Hext : vt_ext pt = false) by (rewrite Ept; reflexivity). rewrite Hext.
+        pose proof (arg_conv_eq pt p st Hpt Hgp) as Ha. rewrite Ept in Ha |- *. rewrite C1 in Ha.
+        unfold bind in Ha |- *. destruct (ty_eq (pv_ty p) (ty_int sg w) st) as [[eq s1]|]; [|discriminate Ha].
+        destruct ((if eq then ret p else init_a_cast cfg (ty_int sg w) p) s1) as [[q s2]|]; [|discriminate Ha].
+        unfold ret in Ha |- *. injection Ha as -> ->. rewrite (goodpv_tmps p' C2). reflexivity.
+      + intros ms k q qt v Hk Hkt Hs. destruct k as [|k]; cbn [nth_error] in *.
+        * injection Hk as <-. injection Hkt as <-.
+          destruct (C5 ms v Hs) as [v' [[He Hsh] Hc]].
+          exists (rd p'), v'. split; [reflexivity|]. split; [exact He|].
+          destruct (ity_inv _ _ _ C3) as [h Eh]. rewrite Eh in Hsh, Hc. rewrite Ept. cbn [vt_sg vt_w ty_int ty_h].
+          split; [exact Hsh | exact Hc].
+        * exact (Sr ms k q qt v Hk Hkt Hs).
+  Qed.
+
   Lemma promote_cases t : promote t = t \/ promote t = int_t.
   Proof. unfold promote. destruct (snd t <? 32)%N; auto. Qed.
 
